@@ -43,9 +43,11 @@ Theorem C08_writes_exact : forall cfg so lo ops,
 Proof. intros. exact (one_write_run cfg so lo ops st0). Qed.
 
 (* The queue is touched only by a client with active stream management (enabled,
-   and a session exists), never for SM requests/answers (sent through Send or as
-   a raw string), and only a packet whose write SUCCEEDED stays on it: the push
-   and the write are one step (Client.sendMu), a refused packet is dropped again. *)
+   and a session exists); it holds EXACTLY THE STANZAS - a packet or raw string whose
+   first element is a message, presence or iq ([nonza] = false), never an
+   acknowledgement request or answer, another nonza, a keepalive, the empty string -
+   and only those whose write SUCCEEDED: the push and the write are one step
+   (Client.sendMu), a refused packet is dropped again. *)
 Theorem C08_queue : forall cfg so lo st o,
   s_queue (fst (step cfg so lo st o)) =
   if reaches cfg o && pushes cfg o then
